@@ -9,7 +9,9 @@ TECHNIQUE = "Hypothesis-generated scenarios x schedules in a deterministic simul
 BUDGET = {"quick": 2400, "thorough": 40000}
 RULE = (
     "case = generated scenario (DAG of 1-12 jobs in arbitrary listing order, 1-3 submission groups, batch size / "
-    "time-based batching, try-add-blocked, max-nodes) x generated schedule (list of scheduling choices); "
+    "time-based batching, try-add-blocked, max-nodes) x generated schedule (list of scheduling choices) x up to 3 "
+    "operator commands (try-submit-jobs / show-status -n) from the login host at generated moments x batches on "
+    "own or shared host names; "
     "non-trivial = >= 2 batches submitted by >= 2 different processes and >= 1 dependency edge; distinct by "
     "hash of (scenario, schedule)"
 )
@@ -18,12 +20,35 @@ setup, teardown = C.setup, C.teardown
 
 
 def strategy(tier):
-    return C.world_cases()
+    from hypothesis import strategies as st
+
+    from jv import gen
+
+    return st.fixed_dictionaries({
+        "scn": gen.scenarios(),
+        "schedule": gen.schedules(),
+        # the operator's try-submit-jobs / show-status from the login host (the same host name as submit-jobs), forced a
+        # generated number of steps into the run
+        "user": st.lists(st.fixed_dictionaries({"at": st.integers(5, 300), "cmd": st.sampled_from(["try", "try", "show"])}), max_size=3),
+        # batches on non-exclusive nodes may share a host name
+        "shared_node_hosts": st.sampled_from([0, 0, 0, 1, 2]),
+    })
 
 
 def run_case(case):
     scn = case["scn"]
-    with H.Sim(scn, schedule=case["schedule"]) as sim:
+    with H.Sim(scn, schedule=case["schedule"], shared_node_hosts=case.get("shared_node_hosts", 0)) as sim:
+        import os
+
+        for u in sorted(case.get("user", []), key=lambda x: x["at"]):
+            def pred(ww, at=u["at"]):
+                return ww.steps >= at and os.path.exists(os.path.join(sim.out, "submitter_groups.json"))
+
+            def fire(ww, cmd=u["cmd"]):
+                if not sim.is_complete():
+                    sim.user_cmd(["try-submit-jobs", sim.out] if cmd == "try" else ["show-status", "-o", sim.out, "-n"])
+
+            sim.w.user_events.append((u["cmd"], pred, fire, True))
         seen, stop = set(), []
 
         def observer(rec):
@@ -38,7 +63,12 @@ def run_case(case):
         sim.w.observers.append(observer)
         sim.submit()
         outcome = sim.drive()
+        sim.w.user_events.clear()
         res = C.base_result(case, sim, outcome)
+        if case.get("user"):
+            res["classes"].append("operator_commands_from_login_host")
+        if case.get("shared_node_hosts"):
+            res["classes"].append("batches_share_host_names")
         v = res["violations"]
         placed = C.placements(sim)
         for j, b in sorted(placed.items()):
